@@ -88,14 +88,28 @@ def _identity(fn: ast.FunctionDef) -> tuple[str, str]:
     return r0.value.value, sep.value
 
 
-def _aad(fn: ast.FunctionDef) -> tuple[bytes, bytes, bytes, bytes]:
-    """`_compute_aad` / `_compute_call_aad`: (prefix, anonymous tail, authenticated tag, separator)."""
+def _aad(fn: ast.FunctionDef) -> tuple[bytes, bytes, bytes, bytes, bytes | None]:
+    """`_compute_aad` / `_compute_call_aad`: (prefix, anonymous tail, authenticated tag, separator, method terminator).
+
+    The prefix is a literal, or `literal + method.encode() + literal` (the call token binds the stream method); the last
+    component is the literal that ends the method name, `None` when the AAD carries no method.
+    """
     body = _strip_doc(fn)
     prefix = None
     anon = tag = sep = None
+    method_end: bytes | None = None
     for st in body:
-        if isinstance(st, ast.Assign) and ast.unparse(st.targets[0]) == "prefix" and isinstance(st.value, ast.Constant):
-            prefix = st.value.value
+        if isinstance(st, ast.Assign) and ast.unparse(st.targets[0]) == "prefix":
+            parts = _flatten_add(st.value)
+            if len(parts) == 1 and isinstance(parts[0], ast.Constant):
+                prefix = parts[0].value
+            elif (
+                len(parts) == 3 and isinstance(parts[0], ast.Constant) and ast.unparse(parts[1]) == "method.encode()"
+                and isinstance(parts[2], ast.Constant) and [a.arg for a in fn.args.args] == ["auth", "method"]
+            ):
+                prefix, method_end = parts[0].value, parts[2].value
+            else:
+                raise ValueError(f"{fn.name}: unexpected prefix {ast.unparse(st.value)}")
         elif isinstance(st, ast.If):
             if ast.unparse(st.test) != "auth is None or not auth.authenticated":
                 raise ValueError(f"{fn.name}: unexpected anonymous test")
@@ -117,7 +131,7 @@ def _aad(fn: ast.FunctionDef) -> tuple[bytes, bytes, bytes, bytes]:
                 raise ValueError(f"{fn.name}: unexpected statement {src}")
     if None in (prefix, anon, tag, sep):
         raise ValueError(f"{fn.name}: incomplete")
-    return prefix, anon, tag, sep  # type: ignore[return-value]
+    return prefix, anon, tag, sep, method_end  # type: ignore[return-value]
 
 
 # ------------------------------------------------------------------------------------------ cache get / put
@@ -174,6 +188,12 @@ def _token_expiry(fn: ast.FunctionDef) -> tuple[str, str]:
     if guard is None or age is None:
         raise ValueError(f"{fn.name}: expiry check not found")
     return guard, age
+
+
+def _all_raises_uniform(fn: ast.FunctionDef) -> bool:
+    """Every `raise` of the function is `raise _token_rejected()` (optionally `from exc`)."""
+    raises = [n for n in ast.walk(fn) if isinstance(n, ast.Raise)]
+    return bool(raises) and all(n.exc is not None and ast.unparse(n.exc) == "_token_rejected()" for n in raises)
 
 
 # ------------------------------------------------------------------------------------------ call sites
@@ -236,41 +256,67 @@ def _sites(tree: ast.AST) -> dict[str, object]:
     for n in ast.walk(branch):
         if isinstance(n, ast.Call) and ast.unparse(n.func) == "app._call_state_cache.put":
             miss_put = n
-    if miss_put is None or len(miss_put.args) != 4 or len(miss) != 2 or "_resolve_call_from_token(app, call_token, call_id, state_info, auth)" not in miss[0]:
+    if miss_put is None or len(miss_put.args) != 4 or len(miss) != 2 or not any(
+        c in miss[0] for c in ("_resolve_call_from_token(app, call_token, call_id, state_info, auth, method_name)",
+                               "_resolve_call_from_token(app, call_token, call_id, state_info, auth)")):
         raise ValueError("_unpack_and_recover_state: miss path not recognised")
+    miss_passes_method = "auth, method_name)" in miss[0]
     miss_anchor = _anchor(miss_put.args[3], tree, ("created_at",) if miss[0].startswith("resolved, created_at = ") else ())
     miss_key_ok = [ast.unparse(a) for a in miss_put.args[:3]] == ["call_id", "auth", "resolved"]
-    # hit branch: nothing (pinned) | the declared-type check
+    # hit branch: nothing (pinned) | the method check and/or the declared-type check, in that order
     hit_checks = False
-    if branch.orelse:
-        o = branch.orelse[0]
-        want_test = "resolved.call_state is not None"
-        inner = [ast.unparse(s) for s in (o.body if isinstance(o, ast.If) else [])]
-        if (
-            len(branch.orelse) == 1 and isinstance(o, ast.If) and ast.unparse(o.test) == want_test and not o.orelse
-            and inner == [
-                "call_state_type = type(resolved.call_state).__name__",
-                "if call_state_type not in _declared_call_state_types(state_info):\n    raise _undeclared_call_state_type(call_state_type)",
-            ]
-        ):
+    hit_method = False
+    hit_method_uniform = True
+    type_inner = [
+        "call_state_type = type(resolved.call_state).__name__",
+        "if call_state_type not in _declared_call_state_types(state_info):\n    raise _undeclared_call_state_type(call_state_type)",
+    ]
+    stmts = list(branch.orelse)
+    for o in stmts:
+        if not (isinstance(o, ast.If) and not o.orelse):
+            raise ValueError("_unpack_and_recover_state: hit branch not recognised")
+        test = ast.unparse(o.test)
+        inner = [ast.unparse(x) for x in o.body]
+        if test == "resolved.method != method_name" and len(inner) == 1 and inner[0].startswith("raise ") and not hit_checks and not hit_method:
+            hit_method = True
+            hit_method_uniform = inner[0] == "raise _token_rejected()"
+        elif test == "resolved.call_state is not None" and inner == type_inner and not hit_checks:
             hit_checks = True
         else:
-            raise ValueError("_unpack_and_recover_state: hit branch not recognised")
+            raise ValueError("_unpack_and_recover_state: hit branch not recognised: " + test)
     # the state object is decoded only after the call is resolved and cached
     decode_after = any(isinstance(s, ast.Try) and "_deserialize_state_bytes" in ast.unparse(s) for s in body[4:])
 
     # ---- miss path internals: absent -> open (AAD of the caller, ttl) -> call id compare -> declared type
     rs = [ast.unparse(s) for s in _strip_doc(res)]
     j = "\n".join(rs)
+    binds = "(call_token, app._token_key, _compute_call_aad(auth, method_name), app._token_ttl)"
     pos = [
         j.find("if call_token is None:"),
-        j.find("(call_token, app._token_key, _compute_call_aad(auth), app._token_ttl)"),
+        j.find(binds) if binds in j else j.find("(call_token, app._token_key, _compute_call_aad(auth), app._token_ttl)"),
         j.find("if not secrets.compare_digest(token_call_id, expected_call_id):"),
         j.find("call_state_cls = _declared_call_state_types(state_info).get(call_state_type)"),
     ]
     miss_order_ok = all(p >= 0 for p in pos) and pos == sorted(pos) and "if call_state_bytes:" in j
+    # the method is threaded through: the miss path opens the call token under the endpoint's method and caches it with
+    # the resolved call; /init mints the token for, and caches, its own method
+    mint_args = None
+    init_rc = None
+    for n in ast.walk(init):
+        if isinstance(n, ast.Call) and ast.unparse(n.func) == "_mint_call_token":
+            mint_args = [ast.unparse(a) for a in n.args]
+        if isinstance(n, ast.Call) and ast.unparse(n.func) == "_ResolvedCall":
+            init_rc = [ast.unparse(a) for a in n.args]
+    method_threaded = (
+        miss_passes_method and binds in j
+        and rs[-1].endswith("stream_id, method_name), created_at)")
+        and mint_args is not None and mint_args[-1] == "method_name"
+        and init_rc is not None and init_rc[-1] == "method_name"
+    )
+    mismatch_uniform = "if not secrets.compare_digest(token_call_id, expected_call_id):\n    raise _token_rejected()" in j
     return {
-        "initAnchor": init_anchor, "missAnchor": miss_anchor, "hitChecksType": hit_checks,
+        "initAnchor": init_anchor, "missAnchor": miss_anchor, "hitChecksType": hit_checks, "hitChecksMethod": hit_method,
+        "methodThreaded": method_threaded, "sitesUniform": hit_method_uniform and mismatch_uniform,
         "keysOk": init_key_ok and miss_key_ok, "decodeAfter": decode_after, "missOrderOk": miss_order_ok,
     }
 
@@ -309,7 +355,8 @@ def emit() -> dict[str, str]:
     anon_key, key_sep = _identity(_func(st, "_identity", "_CallStateCache"))
     cur = _aad(_func(st, "_compute_aad"))
     call = _aad(_func(st, "_compute_call_aad"))
-    same_tail = cur[1:] == call[1:]
+    same_tail = cur[1:4] == call[1:4] and cur[4] is None
+    binds_method = call[4] is not None
     get_op, get_ok = _get(_func(st, "get", "_CallStateCache"))
     put_ok = _put(_func(st, "put", "_CallStateCache"))
     open_call_name = "_open_call_token_dated" if any(
@@ -319,6 +366,8 @@ def emit() -> dict[str, str]:
     if (g1, a1) != (g2, a2):
         raise ValueError("cursor and call token use different expiry comparisons")
     sites = _sites(as_)
+    uniform = (_all_raises_uniform(_func(st, "_open_cursor_token")) and _all_raises_uniform(_func(st, open_call_name))
+               and bool(sites["sitesUniform"]))
     fallback, default_ttl, default_entries = _cache_ttl(ap)
     fps = [
         ("_CallStateCache._identity", _fingerprint(_func(st, "_identity", "_CallStateCache"))),
@@ -354,6 +403,11 @@ def aadUserTag : List Char := {_chars(cur[2])}
 def aadSep : List Char := {_chars(cur[3])}
 /-- both AAD builders use the same identity tail (anonymous literal, tag byte, separator) -/
 def aadSameTail : Bool := {b(same_tail)}
+/-- `_compute_call_aad(auth, method)`: the prefix is `callAadPrefix + method.encode() + callAadMethodEnd`, i.e. a call
+    token opens only at the endpoint of the method it was minted for; and the method name is threaded through
+    `_mint_call_token`, both `_ResolvedCall(…, method_name)` constructions and the miss path's `_compute_call_aad` -/
+def callAadMethodEnd : List Char := {_chars(call[4] or b"")}
+def callBindsMethod : Bool := {b(binds_method and sites["methodThreaded"])}
 
 /-! expiry comparisons -/
 
@@ -382,9 +436,11 @@ structure Shape where
   missAnchor : Anchor
   /-- the hit branch re-applies the miss path's declared-call-state-type check -/
   hitChecksType : Bool
+  /-- the hit branch rejects `resolved.method != method_name` (what the call token's AAD enforces on a miss) -/
+  hitChecksMethod : Bool
 deriving DecidableEq, Repr
 
-def shape : Shape := {{ initAnchor := {sites["initAnchor"]}, missAnchor := {sites["missAnchor"]}, hitChecksType := {b(sites["hitChecksType"])} }}
+def shape : Shape := {{ initAnchor := {sites["initAnchor"]}, missAnchor := {sites["missAnchor"]}, hitChecksType := {b(sites["hitChecksType"])}, hitChecksMethod := {b(sites["hitChecksMethod"])} }}
 
 /-! control flow recognised by AST pattern (required to be `true` by Proofs/C14.lean) -/
 
@@ -398,6 +454,9 @@ def putKeysRecognised : Bool := {b(sites["keysOk"])}
 def resolutionOrderRecognised : Bool := {b(sites["decodeAfter"])}
 /-- `_resolve_call_from_token`: absent → open under the caller's AAD with the TTL → call-id compare → declared call-state type -/
 def missPathRecognised : Bool := {b(sites["missOrderOk"])}
+/-- every failure of `_open_cursor_token` / `{open_call_name}`, the call-id mismatch and the hit branch's method mismatch
+    raise the one `_token_rejected()` -/
+def tokenRejectionsUniform : Bool := {b(uniform)}
 
 /-- normalised-AST fingerprints of the modelled functions (drift indicator, not an obligation) -/
 def fingerprints : List (String × String) := [
